@@ -223,6 +223,14 @@ impl Ignore {
                 Arc::downgrade(&ig_arc),
             );
         }
+        // A parent matcher taken from the cache may have been built for a
+        // different root. Matchers derived from the one we return inherit its
+        // `absolute_base`, so make sure it is the base of *this* root.
+        if ig.0.absolute_base.as_deref() != Some(&*absolute_base) {
+            let mut inner = (*ig.0).clone();
+            inner.absolute_base = Some(absolute_base.clone());
+            ig = Ignore(Arc::new(inner));
+        }
         (ig, errs.into_error_option())
     }
 
